@@ -1,5 +1,6 @@
 # -*- coding: utf-8 -*-
 """C04 - precedence, associativity and parentheses determine expression structure"""
+import datetime
 from fractions import Fraction
 
 from .. import common, fx
@@ -58,6 +59,15 @@ def errvals():
     return dict((k, e.from_message(c)) for k, c in ERRVARS.items())
 
 
+# valued leaves (kind vtree): variables holding date-times with sub-second times of day, and arrays (a one-element array,
+# the [[x]] a host returns for a one-cell range, two vectors of three)
+DVARS = {'ta': datetime.datetime(2021, 3, 4, 10, 0, 0), 'tb': datetime.datetime(2021, 3, 4, 10, 0, 0, 500000),
+         'tc': datetime.datetime(2021, 3, 5, 23, 59, 59, 999000), 'td': datetime.datetime(2021, 3, 4, 10, 0, 0, 1000),
+         'te': datetime.datetime(2021, 3, 4, 10, 0, 0)}
+AVARS = {'one': [10], 'cel': [[12]], 'vec': [1, 2, 3], 'wec': [4, 6, 12]}
+MS_DAY = 86400000
+BASE = datetime.datetime(1899, 12, 30)
+
 _tp = [None]
 _rp = [None]
 
@@ -76,6 +86,8 @@ def real_parser():
         for k, v in VARS.items():
             p.set_variable(k, v)
         for k, v in errvals().items():
+            p.set_variable(k, v)
+        for k, v in list(DVARS.items()) + list(AVARS.items()):
             p.set_variable(k, v)
         # the host resolves references by evaluating further formulas ON THE SAME PARSER while the outer
         # evaluation is in progress (a spreadsheet whose cells hold formulas): leaves are re-entrant
@@ -97,7 +109,14 @@ def real_parser():
     return _rp[0]
 
 
-ENV = fx.env_wire(variables=dict(VARS, **errvals()), fns={'ID': '(first)'}, cells={k.upper(): v for k, v in CELLS.items()})
+def _allvars():
+    d = dict(VARS, **errvals())
+    d.update(DVARS)
+    d.update(AVARS)
+    return d
+
+
+ENV = fx.env_wire(variables=_allvars(), fns={'ID': '(first)'}, cells={k.upper(): v for k, v in CELLS.items()})
 
 
 # ------------------------------------------------------------------ generation
@@ -288,7 +307,7 @@ def render_spec(t, full, rng=None, redundant=0.0):
         return '(' + s + ')'
 
     def atomish(x):
-        return x[0] in ('num', 'var', 'cell', 'call')
+        return x[0] in ('num', 'var', 'cell', 'call', 'arr')
 
     def go(x):
         k = x[0]
@@ -467,6 +486,183 @@ def same(rec, expected, exact_floats=False):
     return abs(r - e) <= 1e-9 * max(1.0, abs(e))
 
 
+# ------------------------------------------------------------------ valued trees (dates with sub-second parts, arrays)
+
+DAYLITS = [('num', 'dec', '0', '00001'), ('num', 'dec', '0', '5'), ('num', 'dot', '', '25'), ('num', 'int', '1', ''),
+           ('num', 'int', '2', ''), ('num', 'dec', '0', '001'), ('num', 'dec', '0', '125'), ('num', 'dec', '1', '5')]
+
+
+def gen_days(rng, depth):
+    """a number of days that is a whole number of milliseconds"""
+    if depth <= 0 or rng.random() < 0.7:
+        return rng.choice(DAYLITS)
+    return ('bin', '-', gen_date(rng, depth - 1), gen_date(rng, depth - 1))
+
+
+def gen_date(rng, depth):
+    """a date-valued tree"""
+    r = rng.random()
+    if depth <= 0 or r < 0.4:
+        if rng.random() < 0.7:
+            return ('var', [rng.choice(sorted(DVARS))])
+        return ('call', 'DATE', 'flat', [('num', 'int', '2021', ''), ('num', 'int', '3', ''), ('num', 'int', str(rng.randrange(3, 7)), '')], [])
+    if r < 0.62:
+        return ('bin', '+', gen_date(rng, depth - 1), gen_days(rng, depth - 1))
+    if r < 0.75:
+        return ('bin', '+', gen_days(rng, depth - 1), gen_date(rng, depth - 1))
+    return ('bin', '-', gen_date(rng, depth - 1), gen_days(rng, depth - 1))
+
+
+def gen_dtop(rng, depth):
+    r = rng.random()
+    op = rng.choice(['=', '<>', '<', '>', '<=', '>='])
+    if r < 0.5:
+        return ('bin', op, gen_date(rng, depth), gen_date(rng, depth))
+    if r < 0.65:
+        return ('bin', op, ('bin', '-', gen_date(rng, depth), gen_date(rng, depth)), rng.choice(DAYLITS))
+    if r < 0.85:
+        return ('bin', '-', gen_date(rng, depth), gen_date(rng, depth))
+    return gen_date(rng, depth)
+
+
+def gen_arr(rng, depth):
+    """-> (tree, shape): shape 's' scalar, 'o' one-element array, 'v' array of three.  Two one-element arrays never meet
+    under one operator (whether they give [x] or [[x]] is nobody's business here)"""
+    if depth <= 0 or rng.random() < 0.3:
+        r = rng.random()
+        if r < 0.25:
+            return ('num', 'int', str(rng.choice(PRIMES + [10, 24, 60])), ''), 's'
+        if r < 0.40:
+            return ('arr', 'flat', [('num', 'int', str(rng.choice(PRIMES + [10, 24, 60])), '')], [], ','), 'o'
+        if r < 0.55:
+            return ('var', [rng.choice(['one', 'cel'])]), 'o'
+        if r < 0.75:
+            return ('var', [rng.choice(['vec', 'wec'])]), 'v'
+        return ('arr', 'flat', [('num', 'int', str(rng.choice(PRIMES)), '') for _ in range(3)], [], rng.choice([',', ';', '\\'])), 'v'
+    for _ in range(20):
+        (l, ls), (r, rs) = gen_arr(rng, depth - 1), gen_arr(rng, depth - 1)
+        if ls == 'o' and rs == 'o':
+            continue
+        sh = 'v' if 'v' in (ls, rs) else ('o' if 'o' in (ls, rs) else 's')
+        return ('bin', rng.choice(['+', '-', '-', '*', '/', '/']), l, r), sh
+    return ('var', ['vec']), 'v'
+
+
+def gen_atop(rng, depth):
+    t, sh = gen_arr(rng, depth)
+    if sh != 's' and rng.random() < 0.3:
+        t = ('call', 'SUM', 'flat', [t], [])
+        if rng.random() < 0.3:
+            t = ('neg', t)
+    return t
+
+
+class NotJudged(Exception):
+    pass
+
+
+def flat(v):
+    if isinstance(v, list):
+        out = []
+        for x in v:
+            out.extend(flat(x))
+        return out
+    return [v]
+
+
+def vexact(t):
+    """value of a valued tree: ('d', ms since 1899-12-30 as Fraction) / Fraction / bool / list of Fractions (flattened)"""
+    k = t[0]
+    if k in ('cmp', 'amparg'):
+        return vexact(t[1])
+    if k == 'num':
+        form, a, b = t[1], t[2], t[3]
+        if form == 'int':
+            return Fraction(int(a))
+        if form == 'dec':
+            return Fraction(int(a)) + Fraction(int(b), 10 ** len(b))
+        if form == 'dot':
+            return Fraction(int(b), 10 ** len(b))
+    if k == 'var':
+        n = t[1][0]
+        if n in DVARS:
+            d = DVARS[n] - BASE
+            return ('d', Fraction((d.days * 86400 + d.seconds) * 1000000 + d.microseconds, 1000))
+        if n in AVARS:
+            return [Fraction(x) for x in flat(AVARS[n])]
+    if k == 'arr':
+        return [vexact(x) for x in t[2]]
+    if k == 'call' and t[1] == 'DATE':
+        y, m, d = [int(vexact(x)) for x in t[3]]
+        return ('d', Fraction((datetime.datetime(y, m, d) - BASE).days * MS_DAY))
+    if k == 'call' and t[1] == 'SUM':
+        return sum(flat(vexact(t[3][0])), Fraction(0))
+    if k == 'neg':
+        return -vexact(t[1])
+    if k == 'bin':
+        op = t[1]
+        a, b = vexact(t[2]), vexact(t[3])
+        if isinstance(a, list) or isinstance(b, list):
+            def one(x, y):
+                if op == '/' and y == 0:
+                    raise NotJudged()
+                return {'+': x + y, '-': x - y, '*': x * y, '/': x / y if y else None}[op]
+            if isinstance(a, list) and len(a) == 1 and isinstance(b, list) and len(b) > 1:
+                a = a[0]
+            if isinstance(b, list) and len(b) == 1 and isinstance(a, list) and len(a) > 1:
+                b = b[0]
+            if isinstance(a, list) and isinstance(b, list):
+                if len(a) != len(b):
+                    raise NotJudged()
+                return [one(x, y) for x, y in zip(a, b)]
+            if isinstance(a, list):
+                return [one(x, b) for x in a]
+            return [one(a, y) for y in b]
+        ad, bd = isinstance(a, tuple), isinstance(b, tuple)
+        if op in ('=', '<>', '<', '>', '<=', '>='):
+            if ad != bd:
+                raise NotJudged()
+            x, y = (a[1], b[1]) if ad else (a * MS_DAY, b * MS_DAY)
+            leaves = t[2][0] in ('var', 'call') and t[3][0] in ('var', 'call')
+            if x != y and abs(x - y) < 1 or x == y and not leaves:
+                raise NotJudged()      # closer than a millisecond (or equal through arithmetic): rounding decides
+            return {'=': x == y, '<>': x != y, '<': x < y, '>': x > y, '<=': x <= y, '>=': x >= y}[op]
+        if op == '+' and ad != bd:
+            return ('d', (a[1] + b * MS_DAY) if ad else (a * MS_DAY + b[1]))
+        if op == '-' and ad and not bd:
+            return ('d', a[1] - b * MS_DAY)
+        if op == '-' and ad and bd:
+            return (a[1] - b[1]) / MS_DAY
+        if not ad and not bd:
+            if op == '/' and b == 0:
+                raise NotJudged()
+            return {'+': a + b, '-': a - b, '*': a * b, '/': a / b if b else None}[op]
+        raise NotJudged()
+    raise ValueError(t)
+
+
+def vsame(rec, expected):
+    if rec['error'] is not None:
+        return False
+    r = rec['result']
+    if isinstance(expected, bool):
+        return r is expected
+    if isinstance(expected, tuple):
+        if not isinstance(r, datetime.datetime):
+            return False
+        d = r - BASE
+        us = (d.days * 86400 + d.seconds) * 1000000 + d.microseconds
+        return abs(Fraction(us, 1000) - expected[1]) <= Fraction(1, 4)          # a quarter of a millisecond
+    if isinstance(expected, list):
+        if not isinstance(r, list):
+            return False
+        got = flat(r)
+        return len(got) == len(expected) and all(vsame({'error': None, 'result': g}, e) for g, e in zip(got, expected))
+    if isinstance(r, bool) or not isinstance(r, (int, float)):
+        return False
+    return abs(Fraction(r) - expected) <= Fraction(1, 10 ** 9) * max(1, abs(expected))
+
+
 # ------------------------------------------------------------------ plugin interface
 
 def cases(rng, ctx):
@@ -494,6 +690,10 @@ def cases(rng, ctx):
             out.append({'kind': 'tree', 't': t, 'ws': rng.randrange(1 << 30)})
     finally:
         _ERRS[0] = False
+    # valued trees: dates with sub-second times of day and arrays as the values of the leaves
+    for _ in range((6000 if thorough else 350) * ctx['scale']):
+        t = gen_dtop(rng, rng.randrange(0, 4)) if rng.random() < 0.5 else gen_atop(rng, rng.randrange(1, 4))
+        out.append({'kind': 'vtree', 't': t, 'ws': rng.randrange(1 << 30)})
     if thorough:
         # every tree with up to 3 binary operators over one representative per level (+,-,*,/,<,&-free), distinct leaves
         ops = ['+', '-', '*', '/', '<']
@@ -590,6 +790,17 @@ def agree(c, impl_ans, model_ans):
 
 
 def oracle(c, impl_ans):
+    if c['kind'] == 'vtree':
+        t = _fix(c['t'])
+        try:
+            expected = vexact(t)
+        except NotJudged:
+            return None
+        for f, tree, rec in impl_ans:
+            if not vsame(rec, expected):
+                return 'formula %r evaluates to %r; the usual reading of its tree gives %s (renderings: %r)' % (
+                    f, rec, vshow(expected), [x[0] for x in impl_ans])
+        return None
     if c['kind'] != 'tree':
         return None
     t = _fix(c['t'])
@@ -606,6 +817,14 @@ def oracle(c, impl_ans):
             return 'formula %r evaluates to %r; the usual reading of its tree gives %r (renderings: %r)' % (
                 f, rec, expected if not isinstance(expected, Fraction) else float(expected), [x[0] for x in impl_ans])
     return None
+
+
+def vshow(v):
+    if isinstance(v, tuple):
+        return 'the date %s' % (BASE + datetime.timedelta(microseconds=int(v[1] * 1000)))
+    if isinstance(v, list):
+        return repr([float(x) for x in v])
+    return repr(v if isinstance(v, bool) else float(v))
 
 
 def nontrivial(c, impl_ans):
